@@ -4,7 +4,7 @@ import GeomV.Common.Geom
 
 Exact part (core `Rat`): `area.go` (`Polygon.Area`, `area`, `signedarea`, `Polygon.Centroid`),
 `multipolygon.go` (`Area`, `Centroid` — the FIXED code, see notes/C03.md), `within.go`
-(`pointInPolygon`, `rayIntersectsSegment`), `simplify.go` (`pointOnSegment`), `similar.go`
+(`pointInPolygon`, `rayIntersectsSegment` — as fixed by the C02 worker), `simplify.go` (`pointOnSegment`), `similar.go`
 (`pointsSimilar` as used by `area`), `bounds.go` (`Area`, `Centroid`), `op/properties.go`
 (`Area`, `area`, `Centroid`).
 
@@ -78,25 +78,19 @@ def pointOnSegment (p l1 l2 : P) : Bool :=
     let d2x := l2.x - l1.x; let d2y := l2.y - l1.y
     (d1x == 0 && d2x == 0) || FQ.feq (fdiv d1y d1x) (fdiv d2y d2x)
 
-/-- `rayIntersectsSegment` (within.go). `math.Nextafter(p.Y, +Inf)` is a positive infinitesimal:
-`nudged` records that `p.Y` sits infinitesimally above its written value. -/
+/-- `rayIntersectsSegment` (within.go, after the C02 fix commits 8183868/002b017: half-open height
+range `[a.Y, b.Y)` instead of the `math.Nextafter` nudge; `p.X <= a.X` shortcut).  In the final
+quotient comparison no denominator can be zero: in the first branch `b.x ≤ p.x < a.x`, in the second
+`a.x < p.x ≤ b.x`. -/
 def rayX (p a0 b0 : P) : Bool :=
   let a := if a0.y > b0.y then b0 else a0
   let b := if a0.y > b0.y then a0 else b0
-  let nudged : Bool := p.y == a.y || p.y == b.y
-  let slope : Bool :=
-    let dxp := p.x - a.x
-    if dxp = 0 then true      -- positive / +0 = +Inf ≥ finite or +Inf
-    else
-      let lhs := (p.y - a.y) / dxp
-      let rhs := (b.y - a.y) / (b.x - a.x)
-      if nudged then decide (lhs > rhs) || (lhs == rhs && decide (dxp > 0)) else decide (lhs ≥ rhs)
-  if p.y < a.y then false
-  else if (if nudged then decide (p.y ≥ b.y) else decide (p.y > b.y)) then false
+  let slope : Bool := decide ((p.y - a.y) / (p.x - a.x) ≥ (b.y - a.y) / (b.x - a.x))
+  if p.y < a.y ∨ p.y ≥ b.y then false
   else if a.x > b.x then
     (if p.x ≥ a.x then false else if p.x < b.x then true else slope)
   else
-    (if p.x > b.x then false else if p.x < a.x then true else slope)
+    (if p.x > b.x then false else if p.x ≤ a.x then true else slope)
 
 inductive Side where
   | outside | inside | onEdge
